@@ -110,7 +110,10 @@ func shardTag() string {
 func (p *Prop[S]) Check(t *testing.T) {
 	t.Helper()
 	var jf *os.File
-	if p.Journal {
+	// Every case is journalled before it runs (p.Journal is kept for older registrations): if the process
+	// dies in the middle of a case - a panic on a goroutine of the code under test cannot be recovered
+	// from here - the driver finds the script that was running and reports it with a crash replay.
+	if true {
 		dir := os.Getenv("VERIF_JOURNAL")
 		if dir == "" {
 			dir = filepath.Join(verifDir(), "work", "journal", p.Property)
